@@ -21,8 +21,10 @@ CONSTANTS Params,        \* persistent parameter names (strings)
           NChunks,       \* number of write operations per save in the reference design
           AutoChoices,   \* set of sets: which parameters save automatically on change
           HwChoices,     \* set of sets: which parameters have a write_ method (writeDict)
+          NoDefChoices,  \* set of sets: which parameters are declared without a default value
+          CfgVals,       \* values a configuration may give (as value or as default)
           Faults,        \* subset of {"crash", "ioerror"}
-          Corruptions,   \* subset of {"missing","notjson","notdict","extra","bad","drop"}
+          Corruptions,   \* subset of {"missing","notjson","notdict","extra","bad","drop","wipe"}
           Dev            \* deviations of the implementation to include ({} = the property)
 
 Default == "v0"
@@ -31,17 +33,20 @@ Bad == "bad"                      \* a stored entry that is not a valid value of
 Entries == Vals \cup {NoVal, Bad}
 Snapshot == [Params -> Vals]
 NoSnap == [p \in Params |-> NoVal]
-CfgSet == [Params -> Vals \cup {NoVal}]
+CfgSet == [Params -> CfgVals \cup {NoVal}]      \* configured values (or configured defaults) per parameter
 
 (* ---- file contents ---- *)
-Absent       == [k |-> "absent",  ent |-> NoSnap, extra |-> FALSE, n |-> 0]
+(* extra: the file holds an entry under a key that is no persistent parameter of the module (an unknown name, *)
+(* a parameter that is not persistent or has persistent = off); its value (NoVal = no such entry) would be   *)
+(* a valid value of that foreign parameter                                                                    *)
+Absent       == [k |-> "absent",  ent |-> NoSnap, extra |-> NoVal, n |-> 0]
 Json(E, x)   == [k |-> "json",    ent |-> E,      extra |-> x,     n |-> 0]   \* a JSON object
-Complete(S)  == Json(S, FALSE)
-Partial(S,i) == [k |-> "partial", ent |-> S,      extra |-> FALSE, n |-> i]   \* i < NChunks chunks written
-NotJson      == [k |-> "notjson", ent |-> NoSnap, extra |-> FALSE, n |-> 0]
-NotDict      == [k |-> "notdict", ent |-> NoSnap, extra |-> FALSE, n |-> 0]
-IsComplete(c) == c.k = "json" /\ c.ent \in Snapshot /\ ~c.extra
-Contents == {Absent, NotJson, NotDict} \cup {Json(E, x) : E \in [Params -> Entries], x \in BOOLEAN}
+Complete(S)  == Json(S, NoVal)
+Partial(S,i) == [k |-> "partial", ent |-> S,      extra |-> NoVal, n |-> i]   \* i < NChunks chunks written
+NotJson      == [k |-> "notjson", ent |-> NoSnap, extra |-> NoVal, n |-> 0]
+NotDict      == [k |-> "notdict", ent |-> NoSnap, extra |-> NoVal, n |-> 0]
+IsComplete(c) == c.k = "json" /\ c.ent \in Snapshot /\ c.extra = NoVal
+Contents == {Absent, NotJson, NotDict} \cup {Json(E, x) : E \in [Params -> Entries], x \in Vals \cup {NoVal}}
             \cup {Partial(S, i) : S \in Snapshot, i \in 0 .. NChunks - 1}
 
 (* ---- the judging predicates (shared with the trace specification) ---- *)
@@ -55,14 +60,18 @@ SkipOK(skip, target, cur) == skip => target = cur
 
 VARIABLES disk,      \* [target, tmp] -> content
           alive,     \* a process exists
-          kind,      \* [auto, hw]: shape of the module class (fixed per behaviour)
+          kind,      \* [auto, hw, nodef]: shape of the module class (fixed per behaviour)
           val,       \* current parameter values
           believed,  \* persistentData: snapshot believed to be on disk (NoSnap = unknown)
           wd,        \* writeDict: values registered for writing to the hardware
           pc,        \* 0 = idle, j = about to perform Ops[j] of a save
-          sv         \* the snapshot being saved
+          sv,        \* the snapshot being saved
+          init,      \* initData: the "factory" values (configuration / default, before the file was applied)
+          fval,      \* value of the foreign (not persistent) parameter
+          err,       \* parameters still flagged "not initialized" (no value from cfg, file or declaration)
+          tampered   \* the environment removed the directory under the running process
 
-vars == <<disk, alive, kind, val, believed, wd, pc, sv>>
+vars == <<disk, alive, kind, val, believed, wd, pc, sv, init, fval, err, tampered>>
 
 (* ---- the reference save procedure ---- *)
 Ops == <<[o |-> "pre", i |-> 0], [o |-> "open", i |-> 0]>>
@@ -86,58 +95,95 @@ Early == "BelieveEarly" \in Dev     \* deviation: persistentData updated before 
 
 (* ---- loading ---- *)
 FileEnt(c) == IF c.k = "json" THEN c.ent ELSE NoSnap
-Loaded(cfg, c) == [p \in Params |-> Expected(cfg[p], FileEnt(c)[p], Default)]
+(* cfg: configured values, cdef: configured defaults (a default given in the configuration is a default) *)
+DefOf(cdef, p) == IF cdef[p] # NoVal THEN cdef[p] ELSE Default
+Loaded(cfg, cdef, c) == [p \in Params |-> Expected(cfg[p], FileEnt(c)[p], DefOf(cdef, p))]
+Factory(cfg, cdef) == [p \in Params |-> Expected(cfg[p], NoVal, DefOf(cdef, p))]
+(* only a parameter that got its value from nowhere (datatype default) may stay flagged "not initialized" *)
+Uninit(cfg, cdef, c, k) == {p \in k.nodef : cfg[p] = NoVal /\ cdef[p] = NoVal /\ FileEnt(c)[p] \notin Vals}
+CfgPairs == {cc \in CfgSet \X CfgSet : \A p \in Params : cc[1][p] = NoVal \/ cc[2][p] = NoVal}
 BelievedAfterLoad(c) == IF IsComplete(c) THEN c.ent ELSE NoSnap
 Pending(nv, k) == [p \in Params |-> IF p \in k.hw THEN nv[p] ELSE NoVal]
 
 Init == /\ disk = [target |-> Absent, tmp |-> Absent]
         /\ alive = FALSE
-        /\ kind \in [auto : AutoChoices, hw : HwChoices]
+        /\ kind \in [auto : AutoChoices, hw : HwChoices, nodef : NoDefChoices]
         /\ val = NoSnap /\ believed = NoSnap /\ wd = NoSnap
         /\ pc = 0 /\ sv = NoSnap
+        /\ init = NoSnap /\ fval = NoVal /\ err = {} /\ tampered = FALSE
 
 (* (re)start = load; the start-up save follows as ordinary save steps *)
-Start(cfg) ==
+Start(cfg, cdef) ==
     /\ pc = 0
-    /\ LET nv == Loaded(cfg, disk.target)
+    /\ LET nv == Loaded(cfg, cdef, disk.target)
            bel == BelievedAfterLoad(disk.target)
        IN /\ alive' = TRUE
           /\ val' = nv
           /\ wd' = Pending(nv, kind)
+          /\ init' = Factory(cfg, cdef)
+          /\ err' = Uninit(cfg, cdef, disk.target, kind)
+          /\ fval' = Default            \* never taken from the file
+          /\ tampered' = FALSE
           /\ IF bel = nv
              THEN pc' = 0 /\ sv' = NoSnap /\ believed' = bel
              ELSE pc' = 1 /\ sv' = nv /\ believed' = IF Early THEN nv ELSE bel
     /\ UNCHANGED <<disk, kind>>
 
+(* writing a value to the hardware initialises the parameter *)
 WriteInit == /\ alive /\ pc = 0 /\ wd # NoSnap
              /\ wd' = NoSnap
-             /\ UNCHANGED <<disk, alive, kind, val, believed, pc, sv>>
+             /\ err' = err \ kind.hw
+             /\ UNCHANGED <<disk, alive, kind, val, believed, pc, sv, init, fval, tampered>>
 
-Change(p, v) == /\ alive /\ pc = 0 /\ wd = NoSnap /\ v # val[p]
+(* a change: by a client (write), by the driver, or read back from the hardware *)
+Change(p, v) == /\ alive /\ pc = 0 /\ wd = NoSnap /\ (v # val[p] \/ p \in err)
                 /\ val' = [val EXCEPT ![p] = v]
-                /\ UNCHANGED <<disk, alive, kind, believed, wd, pc, sv>>
+                /\ err' = err \ {p}
+                /\ UNCHANGED <<disk, alive, kind, believed, wd, pc, sv, init, fval, tampered>>
+
+ChangeForeign(v) == /\ alive /\ pc = 0 /\ v # fval
+                    /\ fval' = v
+                    /\ UNCHANGED <<disk, alive, kind, val, believed, wd, pc, sv, init, err, tampered>>
+
+(* loadParameters(): usable stored entries replace the values (and are written to the hardware), *)
+(* everything else stays; foreign entries are ignored                                            *)
+Reloaded(c, v) == [p \in Params |-> IF FileEnt(c)[p] \in Vals THEN FileEnt(c)[p] ELSE v[p]]
+Reload == /\ alive /\ pc = 0 /\ wd = NoSnap
+          /\ val' = Reloaded(disk.target, val)
+          /\ err' = err \ {p \in Params : FileEnt(disk.target)[p] \in Vals}
+          /\ believed' = BelievedAfterLoad(disk.target)
+          /\ tampered' = FALSE
+          /\ UNCHANGED <<disk, alive, kind, wd, pc, sv, init, fval>>
+
+(* factory_reset: back to the values of configuration / declaration *)
+FactoryReset == /\ alive /\ pc = 0 /\ wd = NoSnap
+                /\ val' = init
+                /\ err' = {}
+                /\ UNCHANGED <<disk, alive, kind, believed, wd, pc, sv, init, fval, tampered>>
 
 SaveBegin == /\ alive /\ pc = 0 /\ wd = NoSnap /\ believed # val
              /\ pc' = 1 /\ sv' = val
              /\ believed' = IF Early THEN val ELSE believed
-             /\ UNCHANGED <<disk, alive, kind, val, wd>>
+             /\ UNCHANGED <<disk, alive, kind, val, wd, init, fval, err, tampered>>
 
 FsStep == /\ alive /\ pc > 0
           /\ disk' = Apply(disk, Ops[pc], sv)
           /\ believed' = IF pc = RenameIdx THEN sv ELSE believed
+          /\ tampered' = IF pc = RenameIdx THEN FALSE ELSE tampered
           /\ IF pc = NOps THEN pc' = 0 /\ sv' = NoSnap ELSE pc' = pc + 1 /\ sv' = sv
-          /\ UNCHANGED <<alive, kind, val, wd>>
+          /\ UNCHANGED <<alive, kind, val, wd, init, fval, err>>
 
 (* the operation at pc raises; the save unwinds through its finally (remove tmp, which may fail too) *)
 IOErr == /\ alive /\ pc > 0 /\ "ioerror" \in Faults
          /\ disk' \in {disk, [disk EXCEPT !.tmp = Absent]}
          /\ pc' = 0 /\ sv' = NoSnap
-         /\ UNCHANGED <<alive, kind, val, believed, wd>>
+         /\ UNCHANGED <<alive, kind, val, believed, wd, init, fval, err, tampered>>
 
 (* the process dies at any moment; the disk stays as it is *)
 Crash == /\ alive /\ "crash" \in Faults
          /\ alive' = FALSE /\ pc' = 0 /\ sv' = NoSnap
          /\ val' = NoSnap /\ believed' = NoSnap /\ wd' = NoSnap
+         /\ init' = NoSnap /\ fval' = NoVal /\ err' = {} /\ tampered' = FALSE
          /\ UNCHANGED <<disk, kind>>
 
 (* between two runs the environment damages the stored file *)
@@ -145,18 +191,26 @@ Damage(c, p, t) ==
     CASE c = "missing" -> Absent
       [] c = "notjson" -> NotJson
       [] c = "notdict" -> NotDict
-      [] c = "extra"   -> IF t.k = "json" THEN [t EXCEPT !.extra = TRUE] ELSE t
+      [] c = "extra"   -> IF t.k = "json" THEN [t EXCEPT !.extra = "v1"] ELSE t
       [] c = "bad"     -> IF t.k = "json" THEN [t EXCEPT !.ent[p] = Bad] ELSE t
       [] c = "drop"    -> IF t.k = "json" THEN [t EXCEPT !.ent[p] = NoVal] ELSE t
-Corrupt(c, p) == /\ ~alive /\ c \in Corruptions
+Corrupt(c, p) == /\ ~alive /\ c \in Corruptions \ {"wipe"}
                  /\ Damage(c, p, disk.target) # disk.target
                  /\ disk' = [disk EXCEPT !.target = Damage(c, p, disk.target)]
-                 /\ UNCHANGED <<alive, kind, val, believed, wd, pc, sv>>
-Corrupting == \E c \in Corruptions, p \in Params : Corrupt(c, p)
+                 /\ UNCHANGED <<alive, kind, val, believed, wd, pc, sv, init, fval, err, tampered>>
+(* the persistent directory is removed while the process runs (clean-up of the log directory): the module *)
+(* cannot know; the next save that has something to write re-creates directory and file                   *)
+Wipe == /\ alive /\ pc = 0 /\ "wipe" \in Corruptions
+        /\ disk' = [target |-> Absent, tmp |-> Absent]
+        /\ tampered' = TRUE
+        /\ UNCHANGED <<alive, kind, val, believed, wd, pc, sv, init, fval, err>>
+Corrupting == Wipe \/ \E c \in Corruptions, p \in Params : Corrupt(c, p)
 
-Next == \/ \E cfg \in CfgSet : Start(cfg)
+Next == \/ \E cc \in CfgPairs : Start(cc[1], cc[2])
         \/ WriteInit
         \/ \E p \in Params, v \in Vals : Change(p, v)
+        \/ \E v \in Vals : ChangeForeign(v)
+        \/ Reload \/ FactoryReset
         \/ SaveBegin \/ FsStep \/ IOErr \/ Crash
         \/ Corrupting
 
@@ -168,23 +222,30 @@ TypeOK == /\ disk \in [target : Contents, tmp : Contents]
           /\ val \in Snapshot \cup {NoSnap} /\ believed \in Snapshot \cup {NoSnap}
           /\ wd \in [Params -> Vals \cup {NoVal}]
           /\ pc \in 0 .. NOps /\ sv \in Snapshot \cup {NoSnap}
-          /\ alive => val \in Snapshot
+          /\ alive => val \in Snapshot /\ init \in Snapshot /\ fval \in Vals
+          /\ err \subseteq kind.nodef /\ tampered \in BOOLEAN
 
 (* the target is never a partially written or empty file *)
 Atomic == disk.target.k # "partial"
 (* whatever happens (step, error, crash): previous or new complete snapshot *)
 AtomicStep == [][Corrupting \/ AtomicOK(disk.target, disk'.target, Complete(val))]_vars
 (* a failed save is not considered done *)
-Retry == (alive /\ pc = 0) => SkipOK(believed = val, disk.target, Complete(val))
-BelievedSound == (alive /\ believed # NoSnap) => disk.target = Complete(believed)
+Retry == (alive /\ pc = 0 /\ ~tampered) => SkipOK(believed = val, disk.target, Complete(val))
+BelievedSound == (alive /\ believed # NoSnap /\ ~tampered) => disk.target = Complete(believed)
 (* a save that ran to its end put the current values on disk *)
 SaveCompletes == [][(FsStep /\ pc = NOps) => disk'.target = Complete(val)]_vars
-RoundTrip == [][\A cfg \in CfgSet : (Start(cfg) /\ IsComplete(disk.target)) =>
-                   \A p \in Params : cfg[p] = NoVal => val'[p] = disk.target.ent[p]]_vars
-Precedence == [][\A cfg \in CfgSet : Start(cfg) =>
-                   \A p \in Params : cfg[p] # NoVal => val'[p] = cfg[p]]_vars
-Tolerant == [][\A cfg \in CfgSet : Start(cfg) =>
+RoundTrip == [][\A cc \in CfgPairs : (Start(cc[1], cc[2]) /\ IsComplete(disk.target)) =>
+                   \A p \in Params : cc[1][p] = NoVal => (val'[p] = disk.target.ent[p] /\ p \notin err')]_vars
+Precedence == [][\A cc \in CfgPairs : Start(cc[1], cc[2]) =>
+                   \A p \in Params : cc[1][p] # NoVal => val'[p] = cc[1][p]]_vars
+Tolerant == [][\A cc \in CfgPairs : Start(cc[1], cc[2]) =>
                   /\ alive'
-                  /\ \A p \in Params : cfg[p] = NoVal =>
-                        val'[p] = IF FileEnt(disk.target)[p] \in Vals THEN FileEnt(disk.target)[p] ELSE Default]_vars
+                  /\ \A p \in Params : cc[1][p] = NoVal =>
+                        val'[p] = IF FileEnt(disk.target)[p] \in Vals THEN FileEnt(disk.target)[p]
+                                  ELSE DefOf(cc[2], p)]_vars
+(* entries of the file that do not belong to a persistent parameter never reach the module *)
+ForeignUntouched == [][(\E cc \in CfgPairs : Start(cc[1], cc[2])) => fval' = Default]_vars
+                    /\ [][Reload => fval' = fval]_vars
+(* reload keeps what the file cannot give; factory reset forgets the file *)
+ReloadKeeps == [][Reload => \A p \in Params : FileEnt(disk.target)[p] \notin Vals => val'[p] = val[p]]_vars
 =============================================================================
